@@ -610,6 +610,16 @@ func ReachFromEntry(fn *ssa.Function, through map[*ssa.BasicBlock]bool, avoid []
 	return seen
 }
 
+// ReachFromEdgesThrough: blocks reachable from the start edges without crossing
+// avoid; blocks of through are reached but not left.
+func ReachFromEdgesThrough(starts, avoid []Edge, through map[*ssa.BasicBlock]bool) (map[*ssa.BasicBlock]bool, map[*ssa.BasicBlock]*ssa.BasicBlock) {
+	av := map[Edge]bool{}
+	for _, e := range avoid {
+		av[e] = true
+	}
+	return reachOpts(nil, starts, av, nil, through)
+}
+
 // Posf renders positions; set by the loader's user.
 type Posf func(token.Pos) string
 
